@@ -114,4 +114,19 @@ theorem sub_neg_rule (a b : ℂ) : a - (-b) = a + b := sub_neg_eq_add a b
 theorem rbf_symm (x y g : ℝ) : Real.exp (-g * |x - y| ^ 2) = Real.exp (-g * |y - x| ^ 2) := by
   rw [abs_sub_comm]
 
+/-- C17 constructor chain: a sum of non-negative reals is non-negative (side lemma of `TOTAL` in props/C17ctor.py), and scaling every value by
+    `1 / total` makes the sum 1 ("same proportions" + this lemma = "normalised"). -/
+theorem sum_nonneg_of_nonneg (f : ℕ → ℝ) (n : ℕ) (h : ∀ i < n, 0 ≤ f i) : 0 ≤ (Finset.range n).sum f :=
+  Finset.sum_nonneg (fun i hi => h i (Finset.mem_range.mp hi))
+theorem sum_scaled_eq_one (f : ℕ → ℝ) (n : ℕ) (h : (Finset.range n).sum f ≠ 0) :
+    (Finset.range n).sum (fun i => f i * (1 / (Finset.range n).sum f)) = 1 := by
+  rw [← Finset.sum_mul]
+  field_simp
+
+/-- C09 Kronecker chain: an identity block is the Kronecker product of identity blocks (so the identity-padded chain of `get_sparse_operator` is the
+    per-qubit tensor-product definition), and kron is associative up to the canonical reindexing (`Matrix.kronecker_assoc`). -/
+theorem identity_block_kron (m n : Type) [Fintype m] [Fintype n] [DecidableEq m] [DecidableEq n] :
+    Matrix.kroneckerMap (· * ·) (1 : Matrix m m ℂ) (1 : Matrix n n ℂ) = 1 :=
+  Matrix.one_kronecker_one
+
 end VerifPrelude
